@@ -11,6 +11,19 @@ what the other side sent, and the message ended cleanly exactly when the sender 
 A scenario that disagrees is re-run 3 times with the same parameters and only counted when it fails every
 time (same class); otherwise it is recorded as inconclusive in the coverage, never as a violation.
 Replay: the case is one `op blackbox ...` line for the c01bb driver.
+
+Seeded change this tier does NOT catch (behaviourally masked, recorded on purpose): FrontRustls::socket_write_vectored
+reporting WouldBlock after a partial absorb that write_tls then drained completely (`can_write = false` before the
+`break` of the partial-absorb branch). The caller clears its WRITABLE event although the socket is writable; the
+stall only shows if nothing re-arms the frontend afterwards. A partial absorb needs rustls to hold a leftover of more
+than (64 KiB - offered) bytes, i.e. the socket was full at the previous write, and the mutated branch is only taken when
+the socket then accepts the whole backlog at once; every later backend read (arm_writable on the frontend), every
+try_resume_reading after a frontend write and every WINDOW_UPDATE re-arm the writer, so the stall needs the LAST buffer
+of the response to be the one partially absorbed, with the backend already read to its end. Tried without a stall:
+8 MB responses to a client paused until the backend is stuck (H1 and h2c backends), 16 x 500 KB and 16 x 16000 with a
+1 GiB window, buffer_size 262144 with 200 KB responses (one offer larger than rustls's buffer: sozu offers at most one
+buffer per write and drains rustls after each), and a sweep of 314 close-delimited responses (60 KB..700 KB in steps of
+4099, client receive buffer 16 KiB / 64 KiB, client paused until the backend has finished and closed).
 """
 import os
 import vlib
@@ -113,6 +126,11 @@ def quick_scenarios(rng):
         scn(rng.choice(["h1", "h2"]), "h2", 3, rng.choice(["none", "cl"]), 5000, "datacl", 3000, interim=103, seed=s()),
         scn("h1", "h1", 3, "none", 0, "cl", 3000, interim=103, seed=s()),
         scn("h2", "h1", rng.choice([1, 3]), "none", 0, rng.choice(["cl", "chunked"]), 3000, chunk=1000, interim=103, seed=s()),
+        # ... and the 103 in the same write as a response larger than the buffer: the first read fills the buffer (354ad67)
+        scn("h1", "h1", 2, "none", 0, rng.choice(["cl", "chunked", "close"]), 40000, chunk=1000, interim=103, seed=s()),
+        # pipelined HTTP/1.1 requests toward an h2c backend whose answers end on an empty DATA frame after the body
+        # (or after `content-length: 0`) has been flushed: nothing but the writer itself can notice the end (0171dd8)
+        scn("h1", "h2", 3, rng.choice(["none", "cl"]), 20000, "datacl", rng.choice([0, 50]), step=0, chunk=1000, stagger=2, sep_end=1, seed=s()),
         # an H2 request that declares its content-length, 0 included (then the END_STREAM comes on an empty DATA frame)
         scn("h2", rng.choice(["h1", "h2"]), 3, "datacl", rng.choice([0, 5000]), "cl", 100, step=0, chunk=1000, sep_end=rng.choice([0, 1]), seed=s()),
         # unclean ends stay unclean
